@@ -683,6 +683,7 @@ impl<'a, E: EndiannessRead, V: EncodingVersion> XTypesDeserializer<'a, E, V> {
             deserializer: &mut XTypesDeserializer<'a, E, V>,
             length: usize,
         ) -> XTypesResult<Vec<O>> {
+            deserializer.reader.check_remaining(length)?;
             let mut sequence = Vec::with_capacity(length);
             for _ in 0..length {
                 sequence.push(deserializer.deserialize_primitive_type()?);
@@ -756,6 +757,7 @@ impl<'a, E: EndiannessRead, V: EncodingVersion> XTypesDeserializer<'a, E, V> {
             ),
             TypeKind::CHAR16 => todo!(),
             TypeKind::STRING8 => {
+                self.reader.check_remaining(length)?;
                 let mut values = Vec::with_capacity(length);
                 for _ in 0..length {
                     values.push(self.deserialize_string_type()?);
@@ -763,6 +765,7 @@ impl<'a, E: EndiannessRead, V: EncodingVersion> XTypesDeserializer<'a, E, V> {
                 dynamic_data.set_string_values(member.get_id(), values)
             }
             TypeKind::STRING16 => {
+                self.reader.check_remaining(length)?;
                 let mut values = Vec::with_capacity(length);
                 for _ in 0..length {
                     values.push(self.deserialize_wstring_type()?);
@@ -793,7 +796,9 @@ impl<'a, E: EndiannessRead, V: EncodingVersion> XTypesDeserializer<'a, E, V> {
             }
             TypeKind::ANNOTATION => todo!(),
             TypeKind::ENUM | TypeKind::STRUCTURE | TypeKind::UNION => {
-                let mut values = Vec::with_capacity(length);
+                // An element can be an empty structure so the length can not be
+                // rejected upfront, but it must not be trusted for the allocation
+                let mut values = Vec::with_capacity(length.min(self.reader.remaining()));
                 for _ in 0..length {
                     values.push(self.deserialize_as_nested(element_type)?);
                 }
@@ -972,6 +977,7 @@ impl<'a, E: EndiannessRead, V: EncodingVersion> XTypesDeserializer<'a, E, V> {
             return Ok(String::new());
         }
         let num_units = length.saturating_sub(1) as usize;
+        self.reader.check_remaining(num_units)?;
         let mut units = Vec::with_capacity(num_units);
         for _ in 0..num_units {
             let unit = self.deserialize_primitive_type::<u16>()?;
@@ -1284,6 +1290,20 @@ struct Reader<'a> {
 }
 
 impl<'a> Reader<'a> {
+    fn remaining(&self) -> usize {
+        self.buffer.len().saturating_sub(self.pos)
+    }
+
+    /// Every serialized element takes at least one byte so a length read from the
+    /// data can never be bigger than the number of bytes still available
+    fn check_remaining(&self, length: usize) -> XTypesResult<()> {
+        if length > self.remaining() {
+            Err(XTypesError::NotEnoughData)
+        } else {
+            Ok(())
+        }
+    }
+
     fn read_byte(&mut self) -> XTypesResult<u8> {
         if self.pos + 1 > self.buffer.len() {
             return Err(XTypesError::NotEnoughData);
